@@ -264,7 +264,7 @@ def run_property(ctx, field, good, what):
         elif r[field] != good:
             ctx.fail("src:" + r["sha"], "%s fails on %s: %s = %s %s" % (what, r["id"], field, r[field], r["detail"][:160]), dict(r))
             nfail += 1
-    nseed = ctx.n(1500, 40000)
+    nseed = ctx.n(1000, 40000)
     sreqs = seeded_requests(ctx, nseed)
     sres, ok2 = run_fmtrt(ctx, exe, sreqs)
     svalid = 0
